@@ -161,8 +161,8 @@ def theorem_family(ew, enc, names):
         return None
     bc = mems[0].split(":")[9] != "0" if mems else False
     # --- VEX / EVEX classes
-    if enc in VEX_SHAPE:
-        sh = VEX_SHAPE[enc]
+    if enc in VEX_SHAPE or enc in (0x83, 0x84):
+        sh = VEX_SHAPE[enc] if enc in VEX_SHAPE else ("mr" if sig == "MR" else "rm")      # VexRmMr: loads in `rm`, stores in `mr`
         want = VEX_SIG[sh]
         if len(sig) != len(want) or any(w != "X" and w != s for w, s in zip(want, sig)) or not inn(sh):
             return None
